@@ -13,7 +13,8 @@ def plan(tier, seed):
     fast = lambda **k: dict({'configs': 'fast'}, **k)
     if tier == 'quick':
         by_mode = {
-            'absent': [fast(n=3, m=2, labels='ints', schemes='six'), fast(n=2, m=3, labels='ints', schemes='six'),
+            'absent': [fast(n=3, m=2, labels='ints', schemes='six_t'), fast(n=2, m=3, labels='ints', schemes='six_t'),
+                       fast(n=3, m=3, labels='ints', schemes='two_t', per=60, configs='bio_det', flags='all_only'),
                        fast(n=4, m=2, labels='ints', schemes='two', per=60, flags='all_only', configs='fast_det'),
                        fast(n=3, m=2, labels=alt, schemes='two'),
                        dict(n=3, m=2, labels='ints', schemes='two', configs='cbc', per=6),
@@ -55,6 +56,7 @@ def init_worker(cfg):
     _lib['fast'] = [c for c in allc if 'fast' in c.tags]
     _lib['fast_det'] = [c for c in allc if 'fast' in c.tags and 'kwik' not in c.tags]
     _lib['cbc'] = [c for c in allc if 'cbc' in c.tags]
+    _lib['bio_det'] = [c for c in allc if 'bio' in c.tags and 'kwik' not in c.tags]
     _lib['solver'] = [c for c in allc if 'enum' in c.tags or 'cbc' in c.tags]
     from corankco.consensus import ConsensusFeature
     from corankco.algorithms.bioconsert.bioconsert import BioConsert
